@@ -7,6 +7,7 @@ import GnarkVerif.Gen.PointCodec.bls24_315
 import GnarkVerif.Gen.PointCodec.bls24_317
 import GnarkVerif.Gen.PointCodec.bw6_633
 import GnarkVerif.Gen.PointCodec.bw6_761
+import GnarkVerif.Gen.PointCodec.secp256k1
 import GnarkVerif.Proofs.PointCodec
 /-
 C07 — tie T for the flag dispatch of `ecc/<curve>/marshal.go` (G1): the GENERIC Go text of the two families (2 flag bits: bn254, grumpkin,
@@ -237,6 +238,30 @@ else
 (let res := res.set 0 ((res.getD 0 0) ||| (0 : UInt8));
 res))))
 
+/-- secp256k1: raw encoding only, no flag -/
+def goSetBytesRaw {F : Type} (fb : Nat) (P : Prims F) (pX pY : F) (buf : List UInt8) (subGroupCheck : Bool) : Except GoErr (F × F × Nat) :=
+(if (decide (buf.length < (2 * fb))) then
+(.error .ErrShortBuffer)
+else
+(if ¬(fb ≤ buf.length) then .error .outOfRange else
+(match P.setBytesCanonical (goSlice buf 0 fb) with
+| none => (.error .setBytesCanonical)
+| some v_ => let pX := v_;
+(if ¬((fb * 2) ≤ buf.length) then .error .outOfRange else
+(match P.setBytesCanonical (goSlice buf fb (fb * 2)) with
+| none => (.error .setBytesCanonical)
+| some v_ => let pY := v_;
+(if (subGroupCheck && (!(P.isInSubGroup pX pY))) then
+(.error (.new "invalid point: subgroup check failed"))
+else
+(.ok (pX, pY, (2 * fb)))))))))
+
+def goRawBytesRaw {F : Type} (fb : Nat) (P : Prims F) (pX pY : F) : List UInt8 :=
+let res : List UInt8 := List.replicate (2 * fb) 0;
+(let res := goPutAt res fb (P.putElement pY);
+(let res := goPutAt res 0 (P.putElement pX);
+res))
+
 /-- `x³ + b` as the Go text computes it (`Square`, `Mul`, `Add` of `bCurveCoeff`) -/
 def goRhs {F : Type} (P : Prims F) (x : F) : F := P.add (P.mul (P.square x) x) P.bCurveCoeff
 /-- stark-curve: `x³ + x + b` -/
@@ -299,6 +324,10 @@ theorem bw6_761_setBytes : GV.Gen.PointCodec.bw6_761.G1_setBytes P pX pY buf sub
 theorem bw6_761_SetBytes : GV.Gen.PointCodec.bw6_761.G1_SetBytes P pX pY buf = goSetBytes3 96 (goRhs P) P pX pY buf true := rfl
 theorem bw6_761_Bytes : GV.Gen.PointCodec.bw6_761.G1_Bytes P pX pY = goBytes3 96 P pX pY := rfl
 theorem bw6_761_RawBytes : GV.Gen.PointCodec.bw6_761.G1_RawBytes P pX pY = goRawBytes3 96 P pX pY := rfl
+
+theorem secp256k1_setBytes : GV.Gen.PointCodec.secp256k1.G1_setBytes P pX pY buf sub = goSetBytesRaw 32 P pX pY buf sub := rfl
+theorem secp256k1_SetBytes : GV.Gen.PointCodec.secp256k1.G1_SetBytes P pX pY buf = goSetBytesRaw 32 P pX pY buf true := rfl
+theorem secp256k1_RawBytes : GV.Gen.PointCodec.secp256k1.G1_RawBytes P pX pY = goRawBytesRaw 32 P pX pY := rfl
 
 end inst
 
@@ -952,5 +981,67 @@ theorem goRawBytes3_eq (P : Prims α) (C : Codec α) (g : α → α) (R : Rel P 
     simp only [goRawBytes3, hiz, Codec.mkPt, h0, if_false, Codec.encRaw, hvx, hvy, hputx, hputy, buildFrame1, writeComps,
       List.append_nil, raw_put _ _ _ (putBE_length _ _) (putBE_length _ _), hL, Layout.code, Nat.zero_mul, Nat.zero_add,
       set_or_zero, Bool.false_eq_true]
+
+/-! ## the raw family (secp256k1) -/
+
+theorem goSetBytesRaw_refines (P : Prims α) (C : Codec α) (g : α → α) (R : Rel P C g) (hL : C.L = .raw)
+    (pX pY : α) (buf : List UInt8) (sub : Bool) :
+    C.absR (goSetBytesRaw C.fb P pX pY buf sub) = some (C.goDecode sub buf) := by
+  have hc := R.c1
+  have hfb := R.fb_pos
+  by_cases hlen : buf.length < C.fb
+  · have : buf.length < 2 * C.fb := by omega
+    simp [goSetBytesRaw, Codec.goDecode, Codec.parseFrame, Codec.nbC, hc, hlen, this, Codec.absR, Codec.errClass]
+  · obtain ⟨b0, tl, rfl⟩ : ∃ b0 tl, buf = b0 :: tl := by
+      cases buf with
+      | nil => simp at hlen; omega
+      | cons b t => exact ⟨b, t, rfl⟩
+    have hk : C.L.k ≤ 8 := by rw [hL]; decide
+    have hk2 : 8 - C.L.k = 8 := by rw [hL]; rfl
+    have hpf := parseFrame1 C hc hfb hk b0 tl hlen
+    rw [hk2, show (2 : Nat) ^ 8 = 256 by norm_num] at hpf
+    have hlt : (tl.take (C.fb - 1)).length = C.fb - 1 := by simp at hlen ⊢; omega
+    have hx : b0.toNat % 256 * 256 ^ (C.fb - 1) + beToNat (tl.take (C.fb - 1)) = beToNat (b0 :: tl.take (C.fb - 1)) := by
+      rw [beToNat_cons, hlt, Nat.mod_eq_of_lt b0.toNat_lt]
+    have hd : b0.toNat / 256 = 0 := Nat.div_eq_of_lt b0.toNat_lt
+    rw [hx] at hpf
+    unfold Codec.goDecode
+    rw [hpf]
+    have h1 : C.fb ≤ tl.length + 1 := by simpa using hlen
+    have h2 : ¬ tl.length + 1 < C.fb := by omega
+    have hX : ∀ x : UInt8, P.setBytesCanonical (x :: tl.take (C.fb - 1)) =
+        if beToNat (x :: tl.take (C.fb - 1)) < C.p then some (C.ofComps [beToNat (x :: tl.take (C.fb - 1))]) else none :=
+      fun x => R.sbc _ (by simp at hlen ⊢; omega)
+    by_cases hlen2 : tl.length + 1 < 2 * C.fb
+    · simp [goSetBytesRaw, hL, hd, Layout.classify, h1, h2, hlen2, Codec.absR, Codec.errClass]
+    · have h3 : C.fb * 2 ≤ tl.length + 1 := by omega
+      have hY := R.sbc (((b0 :: tl).drop C.fb).take C.fb) (by simp; omega)
+      simp only [goSetBytesRaw, goSlice_second, goSlice_head _ _ _ hfb, hX]
+      generalize ((b0 :: tl).drop C.fb).take C.fb = Y at hY ⊢
+      simp only [hY]
+      simp [hL, hd, Layout.classify, h1, h2, h3, hlen2, Codec.phase1, allLt]
+      generalize beToNat (b0 :: List.take (C.fb - 1) tl) = vx
+      generalize beToNat Y = vy
+      by_cases hvx : vx < C.p <;> by_cases hvy : vy < C.p <;>
+        simp [hvx, hvy, Codec.absR, Codec.errClass, Codec.phase2Go, R.sub]
+      generalize C.ofComps [vx] = x
+      generalize C.ofComps [vy] = y
+      cases hs : C.goInSub x y <;> cases sub <;> simp [Codec.absR, Codec.errClass, hs]
+
+theorem goRawBytesRaw_eq (P : Prims α) (C : Codec α) (g : α → α) (R : Rel P C g) (h : C.OK) (hL : C.L = .raw)
+    (x y : α) (hx : C.Valid x) (hy : C.Valid y) : goRawBytesRaw C.fb P x y = C.encRaw (C.mkPt x y) := by
+  have hc := R.c1
+  obtain ⟨vx, hvx, hputx⟩ := R.put x hx
+  obtain ⟨vy, hvy, hputy⟩ := R.put y hy
+  have hz : C.zeros = [0] := by simp [Codec.zeros, hc]
+  by_cases h0 : x = C.zero ∧ y = C.zero
+  · have hzc : C.toComps C.zero = [0] := by rw [h.zero_comps, hc]; rfl
+    have hvx0 : vx = 0 := by rw [h0.1, hzc] at hvx; simpa using hvx.symm
+    have hvy0 : vy = 0 := by rw [h0.2, hzc] at hvy; simpa using hvy.symm
+    simp only [goRawBytesRaw, hputx, hputy, raw_put _ _ _ (putBE_length _ _) (putBE_length _ _)]
+    simp only [hvx0, hvy0, Codec.mkPt, h0, and_self, if_true, Codec.encRaw, hz, buildFrame1, writeComps,
+      List.append_nil, hL, Layout.code, Layout.rawInf, Nat.zero_mul, Nat.zero_add]
+  · simp only [goRawBytesRaw, Codec.mkPt, h0, if_false, Codec.encRaw, hvx, hvy, hputx, hputy, buildFrame1, writeComps,
+      List.append_nil, raw_put _ _ _ (putBE_length _ _) (putBE_length _ _), hL, Layout.code, Nat.zero_mul, Nat.zero_add]
 
 end GV.PointCodec
